@@ -240,30 +240,37 @@ def main(argv):
                        log_tail=tail, case="", how="./check %s --tier %s" % (pid, tier)), open(p, "w"), indent=1)
         violations.append(("harness-crashed", p, "harness %s shard %d died rc=%s" % (part["name"], r["shard"], r["rc"])))
 
-    confirmed_per_key = {}
+    # Determinism gate: a failure is only believed after it failed again when re-run alone, in a fresh
+    # process, from its case string.  Up to 5 recorded failures per key are tried until one is confirmed.
+    # Keys for which none could be confirmed are listed as unconfirmed (the case string does not carry the
+    # whole history that produced them); they raise MACHINERY-ERROR only if nothing at all was confirmed.
+    confirmed_keys, tried_per_key, unconfirmed = set(), {}, {}
     idx = 0
     for f in merged["failures"]:
         key = f["key"]
         part = f["part"]
-        n = confirmed_per_key.get((part["name"], key), 0)
-        if n >= 2:
+        pk = (part["name"], key)
+        if pk in confirmed_keys or tried_per_key.get(pk, 0) >= 5:
             continue
-        confirmed_per_key[(part["name"], key)] = n + 1
+        tried_per_key[pk] = tried_per_key.get(pk, 0) + 1
         idx += 1
         rc, out = confirm_case(part, f["case"], rundir, idx)
         failing = rc == 3 or rc == 97 or (isinstance(rc, int) and rc < 0)
         if not failing:
-            # determinism gate: a failure that does not reproduce alone is a machinery problem
-            if rc == "timeout":
-                return machinery_error("case timed out when re-run alone: %s / %s" % (key, f["case"][:200]))
-            return machinery_error("failure did not reproduce when re-run alone (rc=%s): part=%s key=%s case=%s"
-                                   % (rc, part["name"], key, f["case"][:300]))
+            unconfirmed.setdefault(pk, "rc=%s case=%s" % (rc, f["case"][:300]))
+            continue
+        confirmed_keys.add(pk)
+        unconfirmed.pop(pk, None)
         if key in known_keys:
             knownhits.setdefault(key, f["what"])
             continue
-        if n == 0:
-            p = write_replay(pid, part, f, out)
-            violations.append((key, p, f["what"]))
+        p = write_replay(pid, part, f, out)
+        violations.append((key, p, f["what"]))
+    for (pname, key), why in sorted(unconfirmed.items()):
+        print("UNCONFIRMED (not reported as violation): part=%s key=%s did not fail again when re-run alone: %s" % (pname, key, why[:200]))
+    if unconfirmed and not confirmed_keys and not crashes:
+        (pname, key), why = sorted(unconfirmed.items())[0]
+        return machinery_error("failure did not reproduce when re-run alone: part=%s key=%s %s" % (pname, key, why))
 
     for key, what in sorted(knownhits.items()):
         print("KNOWN-FINDING: property=%s %s [%s] (%d occurrence(s) in this run)" %
